@@ -189,16 +189,19 @@ theorem handle_other_same (n : Node) (key : String) (sub : Sub)
   split
   · exact ⟨rfl, rfl, rfl, rfl⟩
   · split
-    · split
-      · exact svcRequest_same _ _ _
-      · exact ⟨rfl, rfl, rfl, rfl⟩
-    · split
-      · exact appRequest_same _ _
-      · exact ⟨rfl, rfl, rfl, rfl⟩
-    · split
-      · exact nicRequest_same _ _ _
-      · exact ⟨rfl, rfl, rfl, rfl⟩
     · exact ⟨rfl, rfl, rfl, rfl⟩
+    · split
+      · split
+        · exact svcRequest_same _ _ _
+        · exact ⟨rfl, rfl, rfl, rfl⟩
+      · split
+        · exact appRequest_same _ _
+        · exact ⟨rfl, rfl, rfl, rfl⟩
+      · split
+        · exact nicRequest_same _ _ _
+        · exact ⟨rfl, rfl, rfl, rfl⟩
+      · split <;> exact ⟨rfl, rfl, rfl, rfl⟩
+      · exact ⟨rfl, rfl, rfl, rfl⟩
 
 theorem handle_startup (n : Node) (sub : Sub) :
     handle n "startup" sub = ((powerOn n).1, Resp.fromBool (powerOn n).2) := by
@@ -374,16 +377,19 @@ theorem handle_nicInv (n : Node) (key : String) (sub : Sub) (h : NicInv n) : Nic
       · split
         · exact h
         · split
-          · split
-            · exact nicInv_of_same (svcRequest_nics _ _ _).1 (svcRequest_nics _ _ _).2 h
-            · exact h
-          · split
-            · exact nicInv_of_same (appRequest_nics _ _).1 (appRequest_nics _ _).2 h
-            · exact h
-          · split
-            · exact nicRequest_nicInv _ _ _ h
-            · exact h
           · exact h
+          · split
+            · split
+              · exact nicInv_of_same (svcRequest_nics _ _ _).1 (svcRequest_nics _ _ _).2 h
+              · exact h
+            · split
+              · exact nicInv_of_same (appRequest_nics _ _).1 (appRequest_nics _ _).2 h
+              · exact h
+            · split
+              · exact nicRequest_nicInv _ _ _ h
+              · exact h
+            · split <;> exact h
+            · exact h
 
 theorem request_nicInv (tbl : List Route) (n : Node) (key : String) (sub : Sub) (h : NicInv n) :
     NicInv (request tbl n key sub).1 := by
@@ -1165,10 +1171,10 @@ theorem C12_disabled_stays_disabled (s : Service) (h : s.st = .disabled) (nodeOn
 /-! ### non-vacuity: concrete nodes meeting the hypotheses, and the documented timing on them -/
 
 def exOn : Node :=
-  { st := .on, upDur := 2, downDur := 3, nics := [⟨true, true⟩, ⟨false, false⟩],
+  { st := .on, upDur := 2, downDur := 3, nics := [⟨true, true, .ipWired⟩, ⟨false, false, .wired⟩],
     svcs := [⟨.running, 0, 5⟩, ⟨.paused, 0, 5⟩, ⟨.disabled, 0, 5⟩, ⟨.restarting, 1, 5⟩], apps := [⟨.running, 0, 2⟩, ⟨.installing, 1, 2⟩] }
 def exOff : Node :=
-  { st := .off, upDur := 2, downDur := 3, nics := [⟨false, true⟩, ⟨false, false⟩],
+  { st := .off, upDur := 2, downDur := 3, nics := [⟨false, true, .ipWired⟩, ⟨false, false, .wired⟩],
     svcs := [⟨.stopped, 0, 5⟩, ⟨.disabled, 0, 5⟩], apps := [⟨.closed, 0, 2⟩] }
 def shutdownOp : Op := .request "shutdown" (.opaque .success)
 def startupOp : Op := .request "startup" (.opaque .success)
@@ -1285,9 +1291,11 @@ end Primaite.Power
 namespace Primaite.Power
 open Primaite.Gen.Power
 
-/-- the node classes the property names (plus `printer`), each with its regenerated node-level route table -/
+/-- the node classes the property names (plus `host-node` and `printer`): every instantiable class below `Node` that
+declares a discriminator (see `C12_gen_class_inventory`), each with its regenerated node-level route table -/
 theorem C12_gen_classes :
-    classTables.map (·.1) = ["computer", "server", "printer", "switch", "router", "firewall", "wireless-router"] := by
+    classTables.map (·.1) =
+      ["host-node", "computer", "printer", "server", "router", "switch", "firewall", "wireless-router"] := by
   decide
 
 /-- **the regenerated table obligation**: in every node class every node-level route carries the node-is-on
